@@ -2,6 +2,7 @@ import SideVerif.Drive.C10
 import SideVerif.Drive.Cal
 import SideVerif.Drive.C01
 import SideVerif.Drive.C07
+import SideVerif.Drive.C16
 open Lean
 namespace SideVerif.Drive
 
@@ -13,6 +14,7 @@ def dispatch (op : String) (j : Json) : Except String Json :=
   | "cal.compat" => calCompat j
   | "c01" => c01 j
   | "c07.fn" => c07Fn j
+  | "c16" => c16 j
   | "ping" => pure (Json.str "pong")
   | _ => throw s!"unknown op {op}"
 
